@@ -370,6 +370,7 @@ def judge_layered(case) -> Outcome:
 
     top_extra: list = []  # layers prepended in place (highest priority below the private layer)
     bottom_extra: list = []
+    children: list = []  # (derived mapping, extra layer, prepend) - must keep tracking the live parent
 
     def view():
         d = {}
@@ -430,6 +431,7 @@ def judge_layered(case) -> Outcome:
                 exp.update(extra)
                 if dict(lm2) != exp:
                     out.fail("c19.layered_with_layers", f"with_layers gave {dict(lm2)} expected {exp}")
+                children.append((lm.with_layers(dict(extra)), dict(extra), True))
                 lm2["zz"] = 1
                 if "zz" in lm or "zz" in extra:
                     out.fail("c19.layered_write_leak", "write to derived mapping leaked into parent or supplied layer")
@@ -446,6 +448,7 @@ def judge_layered(case) -> Outcome:
                 out.fail("c19.layered_with_layers", f"with_layers(prepend=False) gave {dict(lm2)} expected {exp}")
             if dict(lm) != v:
                 out.fail("c19.layered_with_layers", "with_layers(prepend=False) changed the parent")
+            children.append((lm.with_layers(dict(extra), prepend=False), dict(extra), False))
         elif op == "with_layers_inplace":
             extra = {k: ["y", step]}
             pre = step % 2 == 0
@@ -455,6 +458,14 @@ def judge_layered(case) -> Outcome:
                 out.fail("c19.layered_with_layers", f"with_layers(inplace=True, prepend={pre}) gave {dict(lm)} expected {view()}")
             if extra != {k: ["y", step]}:
                 out.fail("c19.layered_supplied_layer_mutated", "layer supplied to with_layers(inplace=True) was mutated")
+        # a mapping derived earlier is the merge of (its extra layer, the *live* parent)
+        for child, extra_c, pre in children:
+            pv = view()
+            exp_c = {**pv, **extra_c} if pre else {**extra_c, **pv}
+            if dict(child) != exp_c or len(child) != len(exp_c):
+                out.fail("c19.layered_child_stale", f"after {op} {k!r} on the parent, a mapping derived earlier by with_layers(prepend={pre}) shows {dict(child)} but the merge of its layers is {exp_c}")
+                children.clear()
+                break
         if layers != snap:
             out.fail("c19.layered_supplied_layer_mutated", f"supplied layers changed: {layers} != {snap} after {op} {k}")
             break
